@@ -1,6 +1,7 @@
 // C20 — s-expression reader: independent reference reader, tree model, oracle.
 #pragma once
 #include <cerrno>
+#include "shims/c_callers.h"
 #include "support/vp.hpp"
 #include "support/ufw.hpp"
 #include <memory>
@@ -133,9 +134,12 @@ inline Outcome check_input(const std::string &in) {
     o.ref = r.v;
     // ambient state the parser must not depend on: the caller's errno (a previous conversion may have left ERANGE there)
     bool has_digit = in.find_first_of("0123456789") != std::string::npos;
-    for (int pa = 0; pa < 6; pa++) {
-        int pres = pa % 3, ambient = (pa >= 3) || !has_digit ? ERANGE : 0;
-        if (pa >= 3 && !has_digit) continue;
+    for (int pa = 0; pa < 10; pa++) {
+        int pres = pa < 6 ? pa % 3 : (pa - 6) / 2 + 3, ambient = (pa < 6 ? pa >= 3 : (pa & 1)) || !has_digit ? ERANGE : 0;
+        if ((pa < 6 ? pa >= 3 : (pa & 1)) && !has_digit) continue;
+        // 3: from C code, the text in a 64-octet line buffer with stale octets behind the terminator; 4: in a 48-octet struct member
+        if (pres >= 3 && (memchr(in.data(), 0, in.size()) || in.size() > (pres == 3 ? 61u : 47u))) continue;
+        if (pres == 4 && (vp::fnv((const uint8_t *)in.data(), in.size(), 11) & 3)) continue;   // the struct-member form for a quarter of the inputs
         // 0: NUL-terminated (exact strlen+1 block), 1: length-delimited, exact-size block without terminator,
         // 2: sx_parse() from a start index: the input sits behind three octets (brackets, digits, a hex literal or a symbol) that the reader has no business looking at
         if (pres == 0 && memchr(in.data(), 0, in.size())) continue;
@@ -149,9 +153,11 @@ inline Outcome check_input(const std::string &in) {
         if (pres == 0) mem[in.size()] = 0;
         long live0 = ledger().live;
         errno = ambient;
-        struct sx_parse_result res = pres == 0 ? sx_parse_string(mem) : pres == 1 ? sx_parse_stringn(mem, in.size()) : sx_parse(mem, pre + in.size(), pre);
+        struct sx_parse_result res = pres == 0 ? sx_parse_string(mem) : pres == 1 ? sx_parse_stringn(mem, in.size()) : pres == 2 ? sx_parse(mem, pre + in.size(), pre)
+                                     : pres == 3 ? vp_sx_parse_line(in.data(), in.size()) : vp_sx_parse_member(in.data(), in.size());
         if (pres == 2 && res.position >= pre) res.position -= pre; else if (pres == 2 && (res.status == SXS_SUCCESS)) res.position = (size_t)-1;
-        static const char *PN[3][2] = {{"string:", "string:errno-preset:"}, {"stringn:", "stringn:errno-preset:"}, {"parse-from-index:", "parse-from-index:errno-preset:"}};
+        static const char *PN[5][2] = {{"string:", "string:errno-preset:"}, {"stringn:", "stringn:errno-preset:"}, {"parse-from-index:", "parse-from-index:errno-preset:"},
+                                       {"c-line-buffer:", "c-line-buffer:errno-preset:"}, {"c-struct-member:", "c-struct-member:errno-preset:"}};
         const char *P = PN[pres][ambient && has_digit ? 1 : 0];
         std::string key, msg;
         if (r.v == ACCEPT) {
